@@ -7,7 +7,7 @@ WT=/tmp/seed-$(echo $PID | tr A-Z a-z); OUT=/tmp/seed-out/$PID/$K
 export CARGO_TARGET_DIR=$WT-target CARGO_NET_OFFLINE=true
 cd $WT || exit 2
 git checkout -q -- . ; git clean -fdq
-TDIR=$(ls -d rust/$CRATE 2>/dev/null || ls -d rust/*/$CRATE | head -1)
+TDIR=${TDIR:-$(ls -d rust/$CRATE 2>/dev/null || ls -d rust/*/$CRATE | head -1)}
 mkdir -p $TDIR/tests; cp $OUT/demo.rs $TDIR/tests/$TNAME.rs
 echo "== demo WITHOUT patch"; cargo test --offline -p $CRATE --test $TNAME 2>&1 | grep -E "^test result|error(\[|:)" | head -5
 git apply $OUT/patch.diff || { echo "patch does not apply"; exit 3; }
